@@ -7,5 +7,5 @@ Separate Extraction
   w64 decode_file_r decode_file_sr file_enc_w file_enc_sw enc_w enc_sw ebox efile eseg efrag
   topshape trafshape sidxshape moovshape opts fstate
   obs_segment f_frag f_init f_mdat f_sidxs f_mfra f_children f_segs
-  std_leaves box_r box_sr file_r file_sr tree tsize tname bout ist sst ipos sr rpos rerr
+  std_leaves pair_leaves box_r box_sr file_r file_sr tree tsize tname bout ist sst ipos sr rpos rerr
   leafbox_r leafbox_sr leafval leafval_size trun tsample senc mdatv.
